@@ -16,7 +16,7 @@ use camino::{Utf8Path, Utf8PathBuf};
 use semver::Version;
 use serde::{Deserialize, Deserializer, Serialize};
 
-use treestate::{FileState, TreeState};
+use treestate::{FileState, State, TreeState};
 
 use super::download::Download;
 use super::model::CustomBuild;
@@ -34,6 +34,8 @@ pub struct LoadStats {
     pub files: usize,
     pub parsing_time: Duration,
     pub stat_time: Duration,
+    /// a file was modified between being read and being recorded in the tree state
+    pub changed_while_loading: bool,
 }
 
 // Any value that is present is considered Some value, including null.
@@ -449,11 +451,18 @@ pub fn load(
     let mut filenames: IndexSet<FileInclude> = IndexSet::new();
     filenames.insert(FileInclude::new(Utf8PathBuf::from(filename), None, None));
 
+    // the state of each file just before it is read, in `filenames` order
+    let mut states_before_read = Vec::new();
+
     let mut filenames_pos = 0;
     while filenames_pos < filenames.len() {
         let include = filenames.get_index(filenames_pos).unwrap();
         let filename = include.filename.clone();
         let new_index_start = yaml_datas.len();
+
+        states_before_read.push(<FileState as State<_>>::from(
+            &filename.clone().into_std_path_buf(),
+        ));
 
         // load all yaml documents from filename, append to yaml_datas
         yaml_datas.append(&mut load_all(include, new_index_start)?);
@@ -1107,6 +1116,13 @@ pub fn load(
         .collect_vec();
 
     let treestate = FileTreeState::new(filenames.iter());
+
+    // the tree state vouches for what was parsed only if no file changed since before it was
+    // read. otherwise the new state would be recorded together with the old content.
+    let changed_while_loading = filenames
+        .iter()
+        .zip(states_before_read.iter())
+        .any(|(filename, before)| <FileState as State<_>>::from(filename) != *before);
     let stat_time = start.elapsed();
     #[cfg(kaspar030_laze_verif)]
     crate::verif::fault("after_stat");
@@ -1115,6 +1131,7 @@ pub fn load(
         parsing_time,
         stat_time,
         files: filenames.len(),
+        changed_while_loading,
     };
     Ok((contexts, treestate, stats))
 }
